@@ -2,6 +2,7 @@
   SV.Protocol — encoding of the driver's line protocol (hex code points, canonical results).
 -/
 import SV.Model.Iban
+import SV.Model.Registry
 namespace SV
 
 def hexDigit (c : Char) : Option Nat :=
@@ -67,5 +68,69 @@ def parseKV (s : String) : Option (Component × Str) :=
     pure (k, v)
   | _ => none
 
+
+end SV
+
+namespace SV
+
+/-! ### JSON documents in the line protocol: space-separated prefix tokens
+    `n` | `t` | `f` | `i<int>` | `s<hex>` | `a<count> item…` | `o<count> key value …` -/
+
+def parseIntTok (s : String) : Option Int :=
+  if s.startsWith "-" then (s.drop 1).toString.toNat?.map (fun n => -(n : Int)) else s.toNat?.map (fun n => (n : Int))
+
+mutual
+partial def parseJTok : List String → Option (J × List String)
+  | [] => none
+  | t :: rest =>
+    if t == "n" then some (.null, rest)
+    else if t == "t" then some (.bool true, rest)
+    else if t == "f" then some (.bool false, rest)
+    else if t.startsWith "i" then (parseIntTok (t.drop 1).toString).map (fun n => (.num n, rest))
+    else if t.startsWith "s" then (parseStr (t.drop 1).toString).map (fun s => (.str s, rest))
+    else if t.startsWith "a" then
+      match (t.drop 1).toString.toNat? with
+      | some n => (parseJItems n rest).map (fun (l, r) => (.arr l, r))
+      | none => none
+    else if t.startsWith "o" then
+      match (t.drop 1).toString.toNat? with
+      | some n => (parseJMembers n rest).map (fun (l, r) => (.obj l, r))
+      | none => none
+    else none
+partial def parseJItems : Nat → List String → Option (List J × List String)
+  | 0, rest => some ([], rest)
+  | n + 1, rest =>
+    match parseJTok rest with
+    | some (v, rest') => (parseJItems n rest').map (fun (l, r) => (v :: l, r))
+    | none => none
+partial def parseJMembers : Nat → List String → Option (List (Str × J) × List String)
+  | 0, rest => some ([], rest)
+  | n + 1, k :: rest =>
+    match parseStr k, parseJTok rest with
+    | some k, some (v, rest') => (parseJMembers n rest').map (fun (l, r) => ((k, v) :: l, r))
+    | _, _ => none
+  | _ + 1, [] => none
+end
+
+def parseJ (s : String) : Option J :=
+  match parseJTok ((s.splitOn " ").filter (· ≠ "")) with
+  | some (v, []) => some v
+  | _ => none
+
+def insertMember (p : Str × J) : List (Str × J) → List (Str × J)
+  | [] => [p]
+  | q :: t => if strLt p.1 q.1 then p :: q :: t else q :: insertMember p t
+
+/-- Canonical text: object members sorted by key. -/
+partial def showJ : J → String
+  | .null => "n"
+  | .bool true => "t"
+  | .bool false => "f"
+  | .num n => "i" ++ toString n
+  | .str s => "s" ++ showStr s
+  | .arr l => " ".intercalate (("a" ++ toString l.length) :: l.map showJ)
+  | .obj kv =>
+    let sorted := kv.foldr insertMember []
+    " ".intercalate (("o" ++ toString kv.length) :: sorted.flatMap (fun p => [showStr p.1, showJ p.2]))
 
 end SV
